@@ -326,6 +326,7 @@ def make_case(r, depth, deriv=False):
 def work(spec, rec):
     r = harness.rng_for("C14", spec["seed"], spec["shard"])
     for i in range(spec["trees"]):
+        rec.checkpoint()
         case = make_case(r, spec["depth"] if i % 4 else max(2, spec["depth"] - 1))
         for mode in (("auto", "doit") if i % 2 == 0 else ("auto",)):
             c = dict(case, mode=mode)
